@@ -166,7 +166,7 @@ func sweepPrograms(n int) []string {
 	base, _ := strconv.Atoi(os.Getenv("VERIF_SEED"))
 	g := rapid.Custom(func(t *rapid.T) string {
 		r := gen.R{T: t}
-		sg := &gen.Syn{R: r, MaxDepth: 1 + r.Intn(2, "depth"), StmtDepth: r.Intn(3, "sdepth"), Tpl: true}
+		sg := &gen.Syn{R: r, MaxDepth: 1 + r.Intn(2, "depth"), StmtDepth: r.Intn(3, "sdepth"), Tpl: true, NoScale: true}
 		src, _ := layout.Source(r, sg.Program(3), layout.Options{Random: r.Bool("randlayout"), ASI: true})
 		return src
 	})
